@@ -36,6 +36,8 @@ func (Engine) Scenarios(property string) []string {
 		return []string{"model-halt", "disk-halt"}
 	case "C16":
 		return []string{"links-scan", "links-mixed"}
+	case "C17":
+		return []string{"disk-escape"}
 	case "C18":
 		return []string{"model-exec"}
 	case "C29":
@@ -48,7 +50,7 @@ func (Engine) Generate(property, scenario string, seed uint64, tier string) *sim
 	p := &simkit.Plan{Engine: "syncsim", Scenario: scenario, Property: property, Seed: seed, Cfg: map[string]int64{}}
 	r := simkit.NewRand(seed, 1)
 	switch scenario {
-	case "model", "model-untracked", "model-outcomes", "model-halt", "model-exec", "lifecycle", "disk", "disk-untracked", "disk-halt":
+	case "model", "model-untracked", "model-outcomes", "model-halt", "model-exec", "lifecycle", "disk", "disk-untracked", "disk-halt", "disk-escape":
 		genModel(p, r, tier)
 	case "links-scan", "links-mixed":
 		genLinks(p, r, tier)
@@ -60,7 +62,7 @@ func (Engine) Generate(property, scenario string, seed uint64, tier string) *sim
 
 func (Engine) Execute(t *testing.T, plan *simkit.Plan) *simkit.Result {
 	switch plan.Scenario {
-	case "model", "model-untracked", "model-outcomes", "model-halt", "model-exec", "lifecycle", "disk", "disk-untracked", "disk-halt", "links-scan", "links-mixed":
+	case "model", "model-untracked", "model-outcomes", "model-halt", "model-exec", "lifecycle", "disk", "disk-untracked", "disk-halt", "disk-escape", "links-scan", "links-mixed":
 		return execSession(t, plan)
 	}
 	if r := execComponent(t, plan); r != nil {
